@@ -31,7 +31,10 @@ pub struct LoomRaw {
     /// loom does not branch at a mutex release; an atomic RMW right before the
     /// release gives the scheduler the chance to run other threads WHILE the
     /// lock is held (they block in lock(), but a try_lock() observes "held")
-    tick: OnceLock<loom::sync::atomic::AtomicUsize>,
+    /// (taken from a pool that the main thread creates at the start of every execution: a loom
+    /// atomic created lazily inside a spawned thread has no happens-before edge to its users in
+    /// sibling threads, which loom reports as a causality violation of its own)
+    tick: OnceLock<std::sync::Arc<loom::sync::atomic::AtomicUsize>>,
     guard: std::cell::UnsafeCell<Option<MutexGuard<'static, ()>>>,
 }
 impl LoomRaw {
@@ -44,6 +47,9 @@ unsafe impl RawMutex for LoomRaw {
     const INIT: LoomRaw = LoomRaw { inner: OnceLock::new(), tick: OnceLock::new(), guard: std::cell::UnsafeCell::new(None) };
     type GuardMarker = GuardSend;
     fn lock(&self) {
+        if preempt_after_unlock() {
+            self.tick.get_or_init(next_tick).fetch_add(1, Ordering::Relaxed);
+        }
         let g = self.get().lock().unwrap();
         unsafe { *self.guard.get() = Some(std::mem::transmute::<MutexGuard<'_, ()>, MutexGuard<'static, ()>>(g)) };
     }
@@ -52,7 +58,7 @@ unsafe impl RawMutex for LoomRaw {
         // another thread is inside the critical section" a dependent pair
         // that DPOR has to explore in both orders
         if preempt_in_critical_section() {
-            self.tick.get_or_init(|| loom::sync::atomic::AtomicUsize::new(0)).fetch_add(1, Ordering::Relaxed);
+            self.tick.get_or_init(next_tick).fetch_add(1, Ordering::Relaxed);
         }
         match self.get().try_lock() {
             Ok(g) => {
@@ -64,14 +70,37 @@ unsafe impl RawMutex for LoomRaw {
     }
     unsafe fn unlock(&self) {
         if preempt_in_critical_section() {
-            self.tick.get_or_init(|| loom::sync::atomic::AtomicUsize::new(0)).fetch_add(1, Ordering::Relaxed);
+            self.tick.get_or_init(next_tick).fetch_add(1, Ordering::Relaxed);
         }
         drop((*self.guard.get()).take());
+        // loom switches threads only in front of synchronisation operations: without one more
+        // operation here (dependent with the one in front of every lock()), code that keeps
+        // working on shared data AFTER leaving the critical section is never interleaved with
+        // another thread's critical section
+        if preempt_after_unlock() {
+            self.tick.get_or_init(next_tick).fetch_add(1, Ordering::Relaxed);
+        }
     }
 }
 unsafe impl Sync for LoomRaw {}
 unsafe impl Send for LoomRaw {}
 
+const TICK_POOL: usize = 8;
+static TICKS: std::sync::Mutex<Vec<std::sync::Arc<loom::sync::atomic::AtomicUsize>>> = std::sync::Mutex::new(Vec::new());
+fn next_tick() -> std::sync::Arc<loom::sync::atomic::AtomicUsize> {
+    TICKS.lock().unwrap().pop().unwrap_or_else(|| panic!("MACHINERY: more than {} locks in one execution", TICK_POOL))
+}
+fn reset_tick_pool() {
+    let mut t = TICKS.lock().unwrap();
+    t.clear();
+    for _ in 0..TICK_POOL {
+        t.push(std::sync::Arc::new(loom::sync::atomic::AtomicUsize::new(0)));
+    }
+}
+static PREEMPT_AFTER_UNLOCK: std::sync::atomic::AtomicBool = std::sync::atomic::AtomicBool::new(true);
+fn preempt_after_unlock() -> bool {
+    PREEMPT_AFTER_UNLOCK.load(Ordering::Relaxed)
+}
 static PREEMPT_IN_CS: std::sync::atomic::AtomicBool = std::sync::atomic::AtomicBool::new(true);
 fn preempt_in_critical_section() -> bool {
     PREEMPT_IN_CS.load(Ordering::Relaxed)
@@ -296,7 +325,10 @@ fn mutex_fair_order() {
     assert_eq!(order, vec![1, 2], "C04: fair mutex granted the lock out of arrival order");
 }
 
-/// fair semaphore: a large request queued first must not be overtaken by a later small one
+/// fair semaphore: a large request queued first must not be overtaken by a later small one.
+/// Only 2 permits exist in total, so the holders of 2 and of 1 permit exclude each other and the
+/// order recorded WHILE HOLDING the permits is the order of completion (recording after the permits
+/// were given up, or with enough permits for both, would race with the other thread's recording)
 fn sem_fair_order() {
     let s = Arc::new(GenericSemaphore::<LoomRaw>::new(true, 0));
     let _ = s.permits();
@@ -311,27 +343,27 @@ fn sem_fair_order() {
     let keep1 = s.clone();
     let h2 = loom::thread::spawn(move || {
         loom::future::block_on(async move {
-            let mut r = f2.await;
-            // completion order is recorded while the permits are still held
+            let r = f2.await;
             o2.lock().unwrap().push(2);
-            r.disarm();
+            drop(r);
         });
         let _ = &keep1;
     });
     let keep2 = s.clone();
     let h1 = loom::thread::spawn(move || {
         loom::future::block_on(async move {
-            let mut r = f1.await;
+            let r = f1.await;
             o1.lock().unwrap().push(1);
-            r.disarm();
+            drop(r);
         });
         let _ = &keep2;
     });
     s.release(1);
-    s.release(2);
+    s.release(1);
     h1.join().unwrap();
     h2.join().unwrap();
     assert_eq!(*order.lock().unwrap(), vec![1, 2], "C07: fair semaphore served a later request before an earlier pending one");
+    assert_eq!(s.permits(), 2, "C05: permits not conserved");
 }
 
 fn swap_sem(fair: bool) {
@@ -425,25 +457,40 @@ fn swap_timer() {
 
 
 // ---- scheduling points for the crate's handle counters (verif::sync::AtomicUsize hook)
-static REG: std::sync::Mutex<Vec<(usize, std::sync::Arc<loom::sync::atomic::AtomicUsize>)>> = std::sync::Mutex::new(Vec::new());
+// The loom atomics standing in for the counters are created by the main thread at the start of
+// every execution (a loom object created lazily inside a spawned thread has no happens-before edge
+// to its users in sibling threads, which loom reports as a causality violation of its own); a
+// counter address is bound to the next free pool entry at its first operation.
+const HOOK_POOL: usize = 12;
+static HOOK_ON: std::sync::atomic::AtomicBool = std::sync::atomic::AtomicBool::new(false);
+static REG: std::sync::Mutex<(Vec<usize>, Vec<std::sync::Arc<loom::sync::atomic::AtomicUsize>>)> = std::sync::Mutex::new((Vec::new(), Vec::new()));
 fn sched_hook(addr: usize) {
     let a = {
         let mut r = REG.lock().unwrap();
-        match r.iter().find(|e| e.0 == addr) {
-            Some(e) => e.1.clone(),
+        let idx = match r.0.iter().position(|e| *e == addr) {
+            Some(i) => i,
             None => {
-                let a = std::sync::Arc::new(loom::sync::atomic::AtomicUsize::new(0));
-                r.push((addr, a.clone()));
-                a
+                r.0.push(addr);
+                r.0.len() - 1
             }
-        }
+        };
+        assert!(idx < r.1.len(), "MACHINERY: more than {} distinct counters in one execution", HOOK_POOL);
+        r.1[idx].clone()
     };
     // one RMW on a per-counter loom atomic: counter operations of different threads become
     // dependent scheduling points (the std lock above is released before loom may switch)
     a.fetch_add(1, Ordering::SeqCst);
 }
 fn reset_hook_registry() {
-    REG.lock().unwrap().clear();
+    if !HOOK_ON.load(Ordering::Relaxed) {
+        return;
+    }
+    let mut r = REG.lock().unwrap();
+    r.0.clear();
+    r.1.clear();
+    for _ in 0..HOOK_POOL {
+        r.1.push(std::sync::Arc::new(loom::sync::atomic::AtomicUsize::new(0)));
+    }
 }
 
 
@@ -714,6 +761,57 @@ fn event_set_reset_set() {
     assert!(e.is_set());
 }
 
+/// set() races with a waiter that abandons its parked wait future (two waiters parked, so that the
+/// abandoned node may be the head or an inner node of whatever list set() is walking)
+fn event_set_vs_abandon() {
+    let e = Arc::new(GenericManualResetEvent::<LoomRaw>::new(false));
+    let _ = e.is_set();
+    let er: &'static GenericManualResetEvent<LoomRaw> = unsafe { &*(&*e as *const GenericManualResetEvent<LoomRaw>) };
+    let mut f1 = Box::pin(er.wait());
+    let mut f2 = Box::pin(er.wait());
+    let (w1, _c1) = counting_waker();
+    let (w2, c2) = counting_waker();
+    assert!(f1.as_mut().poll(&mut Context::from_waker(&w1)).is_pending());
+    assert!(f2.as_mut().poll(&mut Context::from_waker(&w2)).is_pending());
+    let keep = e.clone();
+    let h1 = loom::thread::spawn(move || {
+        drop(f1);
+        let _ = &keep;
+    });
+    let e2 = e.clone();
+    let h2 = loom::thread::spawn(move || e2.set());
+    h1.join().unwrap();
+    h2.join().unwrap();
+    assert!(c2.load(Ordering::SeqCst) > 0, "C14: set() did not wake a pending waiter");
+    assert!(f2.as_mut().poll(&mut Context::from_waker(&w2)).is_ready(), "C14: wait future pending although the event is set");
+    drop(f2);
+}
+
+/// the same with the abandoning thread dropping the *second* (tail) waiter
+fn event_set_vs_abandon_tail() {
+    let e = Arc::new(GenericManualResetEvent::<LoomRaw>::new(false));
+    let _ = e.is_set();
+    let er: &'static GenericManualResetEvent<LoomRaw> = unsafe { &*(&*e as *const GenericManualResetEvent<LoomRaw>) };
+    let mut f1 = Box::pin(er.wait());
+    let mut f2 = Box::pin(er.wait());
+    let (w1, c1) = counting_waker();
+    let (w2, _c2) = counting_waker();
+    assert!(f1.as_mut().poll(&mut Context::from_waker(&w1)).is_pending());
+    assert!(f2.as_mut().poll(&mut Context::from_waker(&w2)).is_pending());
+    let keep = e.clone();
+    let h1 = loom::thread::spawn(move || {
+        drop(f2);
+        let _ = &keep;
+    });
+    let e2 = e.clone();
+    let h2 = loom::thread::spawn(move || e2.set());
+    h1.join().unwrap();
+    h2.join().unwrap();
+    assert!(c1.load(Ordering::SeqCst) > 0, "C14: set() did not wake a pending waiter");
+    assert!(f1.as_mut().poll(&mut Context::from_waker(&w1)).is_ready(), "C14: wait future pending although the event is set");
+    drop(f1);
+}
+
 fn event_two_waiters() {
     let e = Arc::new(GenericManualResetEvent::<LoomRaw>::new(false));
     let _ = e.is_set();
@@ -846,15 +944,21 @@ fn mpmc_cancel_vs_receive_cap1() {
 }
 
 /// close() races with a consumer that abandons its parked receive and with a parked sender that is cancelled
-fn mpmc_close_vs_abandon() {
+fn mpmc_close_vs_abandon_v(rev: bool) {
     let (tx, rx) = sh::generic_channel::<LoomRaw, u32, FixedHeapBuf<u32>>(1);
     let _ = rx.try_receive();
     let mut r1 = Box::pin(rx.receive());
     let mut r2 = Box::pin(rx.receive());
     let (w1, _c1) = counting_waker();
     let (w2, c2) = counting_waker();
-    assert!(r1.as_mut().poll(&mut Context::from_waker(&w1)).is_pending());
-    assert!(r2.as_mut().poll(&mut Context::from_waker(&w2)).is_pending());
+    // `rev`: the abandoned future is the most recently queued one instead of the oldest
+    if rev {
+        assert!(r2.as_mut().poll(&mut Context::from_waker(&w2)).is_pending());
+        assert!(r1.as_mut().poll(&mut Context::from_waker(&w1)).is_pending());
+    } else {
+        assert!(r1.as_mut().poll(&mut Context::from_waker(&w1)).is_pending());
+        assert!(r2.as_mut().poll(&mut Context::from_waker(&w2)).is_pending());
+    }
     let h1 = loom::thread::spawn(move || drop(r1));
     let tx2 = tx.clone();
     let h2 = loom::thread::spawn(move || {
@@ -865,6 +969,12 @@ fn mpmc_close_vs_abandon() {
     assert!(c2.load(Ordering::SeqCst) > 0, "C11: close() did not wake a pending receiver");
     assert_eq!(r2.as_mut().poll(&mut Context::from_waker(&w2)), Poll::Ready(None), "C11: receive on a closed, empty channel must yield None");
     drop(tx);
+}
+fn mpmc_close_vs_abandon() {
+    mpmc_close_vs_abandon_v(false)
+}
+fn mpmc_close_vs_abandon_rev() {
+    mpmc_close_vs_abandon_v(true)
 }
 
 /// two threads close the channel: once close() has returned (with either status) on a thread,
@@ -1246,7 +1356,7 @@ fn state_followers() {
 }
 
 /// send() races with a follower that abandons its parked receive; another follower must get the state
-fn state_send_vs_abandon() {
+fn state_send_vs_abandon_v(rev: bool) {
     let c = Arc::new(GenericStateBroadcastChannel::<LoomRaw, u32>::new());
     let _ = c.try_receive(StateId::new());
     let cr: &'static GenericStateBroadcastChannel<LoomRaw, u32> = unsafe { &*(&*c as *const GenericStateBroadcastChannel<LoomRaw, u32>) };
@@ -1254,8 +1364,14 @@ fn state_send_vs_abandon() {
     let mut r2 = Box::pin(cr.receive(StateId::new()));
     let (w1, _c1) = counting_waker();
     let (w2, c2) = counting_waker();
-    assert!(r1.as_mut().poll(&mut Context::from_waker(&w1)).is_pending());
-    assert!(r2.as_mut().poll(&mut Context::from_waker(&w2)).is_pending());
+    // `rev`: the abandoned future is the most recently queued one instead of the oldest
+    if rev {
+        assert!(r2.as_mut().poll(&mut Context::from_waker(&w2)).is_pending());
+        assert!(r1.as_mut().poll(&mut Context::from_waker(&w1)).is_pending());
+    } else {
+        assert!(r1.as_mut().poll(&mut Context::from_waker(&w1)).is_pending());
+        assert!(r2.as_mut().poll(&mut Context::from_waker(&w2)).is_pending());
+    }
     let keep = c.clone();
     let h1 = loom::thread::spawn(move || {
         drop(r1);
@@ -1274,9 +1390,15 @@ fn state_send_vs_abandon() {
     }
     drop(r2);
 }
+fn state_send_vs_abandon() {
+    state_send_vs_abandon_v(false)
+}
+fn state_send_vs_abandon_rev() {
+    state_send_vs_abandon_v(true)
+}
 
 /// oneshot broadcast: send() races with a receiver that abandons its parked receive
-fn bcast_send_vs_abandon() {
+fn bcast_send_vs_abandon_v(rev: bool) {
     let c = Arc::new(GenericOneshotBroadcastChannel::<LoomRaw, u32>::new());
     let _ = poll_once_and_drop(c.receive());
     let cr: &'static GenericOneshotBroadcastChannel<LoomRaw, u32> = unsafe { &*(&*c as *const GenericOneshotBroadcastChannel<LoomRaw, u32>) };
@@ -1284,8 +1406,14 @@ fn bcast_send_vs_abandon() {
     let mut r2 = Box::pin(cr.receive());
     let (w1, _c1) = counting_waker();
     let (w2, c2) = counting_waker();
-    assert!(r1.as_mut().poll(&mut Context::from_waker(&w1)).is_pending());
-    assert!(r2.as_mut().poll(&mut Context::from_waker(&w2)).is_pending());
+    // `rev`: the abandoned future is the most recently queued one instead of the oldest
+    if rev {
+        assert!(r2.as_mut().poll(&mut Context::from_waker(&w2)).is_pending());
+        assert!(r1.as_mut().poll(&mut Context::from_waker(&w1)).is_pending());
+    } else {
+        assert!(r1.as_mut().poll(&mut Context::from_waker(&w1)).is_pending());
+        assert!(r2.as_mut().poll(&mut Context::from_waker(&w2)).is_pending());
+    }
     let keep = c.clone();
     let h1 = loom::thread::spawn(move || {
         drop(r1);
@@ -1300,6 +1428,12 @@ fn bcast_send_vs_abandon() {
     assert!(c2.load(Ordering::SeqCst) > 0, "C12: send() did not wake a pending receiver");
     assert_eq!(r2.as_mut().poll(&mut Context::from_waker(&w2)), Poll::Ready(Some(7)), "C12: every receiver gets the value");
     drop(r2);
+}
+fn bcast_send_vs_abandon() {
+    bcast_send_vs_abandon_v(false)
+}
+fn bcast_send_vs_abandon_rev() {
+    bcast_send_vs_abandon_v(true)
 }
 
 /// state 1 is published; try_receive races with the next send: it must yield a state
@@ -1392,10 +1526,15 @@ fn timer_abandon() {
 }
 
 const SCENARIOS: &[(&str, &str, Scenario)] = &[
+    ("event_set_vs_abandon", "C01,C14", event_set_vs_abandon),
+    ("event_set_vs_abandon_tail", "C01,C14", event_set_vs_abandon_tail),
     ("mpmc_close_vs_abandon", "C01,C11", mpmc_close_vs_abandon),
+    ("mpmc_close_vs_abandon_rev", "C01,C11", mpmc_close_vs_abandon_rev),
     ("mpmc_double_close", "hook:C11", mpmc_double_close),
     ("state_send_vs_abandon", "C01,C13", state_send_vs_abandon),
+    ("state_send_vs_abandon_rev", "C01,C13", state_send_vs_abandon_rev),
     ("bcast_send_vs_abandon", "C01,C12", bcast_send_vs_abandon),
+    ("bcast_send_vs_abandon_rev", "C01,C12", bcast_send_vs_abandon_rev),
     ("mutex_fair_order", "C04", mutex_fair_order),
     ("sem_fair_order", "C07", sem_fair_order),
     ("event_set_vs_reset", "C14", event_set_vs_reset),
@@ -1471,9 +1610,13 @@ fn main() {
                 std::process::exit(2)
             });
             if props.contains("hook:") {
+                HOOK_ON.store(true, Ordering::Relaxed);
                 futures_intrusive::verif::sync::set_sched_hook(Some(sched_hook));
             }
             let pb = args.iter().position(|a| a == "--pb").and_then(|i| args.get(i + 1)).map(|s| s.as_str()).unwrap_or("2");
+            if args.iter().any(|a| a == "--no-preempt-after-unlock") {
+                PREEMPT_AFTER_UNLOCK.store(false, Ordering::Relaxed);
+            }
             if args.iter().any(|a| a == "--no-preempt-in-cs") {
                 PREEMPT_IN_CS.store(false, Ordering::Relaxed);
             }
@@ -1489,6 +1632,7 @@ fn main() {
             b.check(move || {
                 ITERS.fetch_add(1, Ordering::Relaxed);
                 reset_hook_registry();
+                reset_tick_pool();
                 f();
             });
             let dt = t0.elapsed().as_secs_f64();
